@@ -723,6 +723,54 @@ def s_cw_hetero(seed=0, k_max=3, full=False):
                                 f"blocker={blocker} goal={goal}")
 
 
+def s_cw_slo(seed=0, k_max=2, full=False):
+    """Clockwork requests of ONE model with *different* relative SLOs that queue up
+    behind a long request of another model on the only GPU (busy until t=6), so that
+    the order of their absolute deadlines and the order of their relative SLOs can
+    disagree when the queue is finally served: every arrival vector in {0..5}^k
+    (non-decreasing) and every SLO vector in {2..9}^k, both goals.  A batch of two
+    (3us) may be on time for the queue head and late for the request behind it."""
+    m1 = {"name": "M1",
+          "loading_strategies": [{"batch_size": 1, "runtime": 1,
+                                  "resource_requirements": {"RAM:any": 1}}],
+          "execution_strategies": [
+              {"batch_size": 1, "runtime": 2, "resource_requirements": {"GPU:any": 1}},
+              {"batch_size": 2, "runtime": 3, "resource_requirements": {"GPU:any": 1}}]}
+    mb = {"name": "MB",
+          "loading_strategies": [{"batch_size": 1, "runtime": 1,
+                                  "resource_requirements": {"RAM:any": 1}}],
+          "execution_strategies": [
+              {"batch_size": 1, "runtime": 6, "resource_requirements": {"GPU:any": 1}}]}
+    clus = cluster([dict(GPU=1, RAM=2)])
+    rel_dom = (0, 1, 2, 3, 4, 5)
+    slo_dom = (2, 3, 4, 5, 6, 7, 8, 9)
+    for k in range(2, k_max + 1):
+        if k >= 3 and not full:
+            rel_dom, slo_dom = (1, 3, 5), (3, 5, 6, 7)
+        for rels in itertools.product(rel_dom, repeat=k):
+            if list(rels) != sorted(rels):
+                continue
+            for slos in itertools.product(slo_dom, repeat=k):
+                graphs = [{
+                    "name": "B0", "graph": [{"name": "R", "work_profile": "MB",
+                                             "slo": 20}],
+                    "release_policy": "fixed", "period": 1, "invocations": 1,
+                    "start": 0, "deadline_variance": [0, 0]}]
+                for i in range(k):
+                    graphs.append({
+                        "name": f"Q{i}",
+                        "graph": [{"name": "R", "work_profile": "M1", "slo": slos[i]}],
+                        "release_policy": "fixed", "period": 1, "invocations": 1,
+                        "start": rels[i], "deadline_variance": [0, 0]})
+                wl = {"profiles": [m1, mb], "graphs": graphs}
+                for goal in ("clockwork", "least_slack"):
+                    fl = {"scheduler": "Clockwork", "clockwork_goal": goal,
+                          "unique_work_profiles": True}
+                    yield mk_world(
+                        wl, clus, fl, seed, tape=[], preload=True,
+                        tag=f"S-cw-slo k={k} rel={rels} slo={slos} goal={goal}")
+
+
 def s_plan_batch(policies, seed=0, k_max=3):
     """Planners with --scheduler_enable_batching: k <= 3 single-task graphs that share
     one work profile (so they can be batched), every arrival vector in {0,1,2}^k, every
